@@ -10,6 +10,14 @@ claim("C16", "E3", "hypothesis generated name sets vs naive scan; hypothesis sta
       "Names restricted to the parser's shape (set variant first and never deeper, no repeated variant); TestNode "
       "objects are built with hand-written parameters; hypothesis and CPython trusted.")
 
+claim("C17", "E3", "hypothesis generated multi-image listings vs set intersection / size classification",
+      "Generated search over 1-3 images with arbitrary state-name lists rendered as qemu-img snapshot listings "
+      "(generated padding, zero and non-zero vm-state sizes, optional header/icount column) and memory files; the "
+      "vm-level listing must equal the intersection over images (and memory files) and the on/off listings must "
+      "split by vm-state size. Exact oracle, cheap cases, sampled exploration.",
+      "QemuImg and os.listdir/stat substituted as in the selftests; the ramfile per-image backend is a stub; "
+      "listing grammar follows qemu-img's columns.")
+
 _pending = "check not built yet in this round (planned in DESIGN.md section 4); not claimed until it runs"
 for _i in range(1, 21):
     _p = f"C{_i:02d}"
